@@ -32,7 +32,7 @@ import sys, json
 sys.path.insert(0, sys.argv[1]); sys.path.insert(0, sys.argv[2])
 from verif import impl
 texts = json.load(sys.stdin)
-print(json.dumps([impl.run_chart(t, w) for t, w in texts]))
+print(json.dumps([impl.run_observed(t, w) for t, w in texts]))
 """
 
 
@@ -85,13 +85,8 @@ def slice(ctx: fw.Ctx) -> fw.Outcome:
         if s != ref[k]:
             out.violation("fresh-" + fw.h(cases[k]), "a chart parsed alone in a fresh interpreter differs from the same chart parsed after others in another fresh interpreter",
                           {"op": "history", "cases": [list(c) for c in batches[k // per][: k % per + 1]]}, observed=s[:200], promised=ref[k][:200])
-    # model: pure by construction
-    mod = driver.run_parallel([f"chart {driver.cps(t)} {driver.want_tok(w)}" for t, w in cases])
-    for k, (c, r, m) in enumerate(zip(cases, ref, mod)):
-        out.traces += 1
-        if r != m:
-            p_, q_ = fw.first_diff(r, m)
-            out.corr_mismatch("fresh-interpreter parse vs model", {"op": "history", "cases": [list(c)]}, impl=p_, model=q_)
+    # The Lean side of C17 is the memoisation argument and the state inventory; the whole-chart model is *not* compared here:
+    # a change to what a parse computes is another property's business, C17 is about the same text giving the same result.
     # (b) in-process histories
     rng = ctx.sub("hist")
     for hno in range(ctx.n(6, 60)):
@@ -99,7 +94,7 @@ def slice(ctx: fw.Ctx) -> fw.Outcome:
         if hno == 0:
             order = list(range(len(cases))) + order  # everything once: > 128 keys per memo table inside one history
         for pos, k in enumerate(order):
-            x = impl.run_chart(*cases[k])
+            x = impl.run_observed(*cases[k])
             out.case(fw.h([hno, pos, k]), pos >= 1, {"history": hno, "position": pos, "chart": k, "outcome": x[:30]} if pos == 5 else None,
                      tags=["history", x.split("|")[0][:14]])
             if x != ref[k]:
@@ -117,7 +112,7 @@ def slice(ctx: fw.Ctx) -> fw.Outcome:
             results = [None] * nthreads
 
             def work(i):
-                results[i] = [impl.run_chart(*cases[k]) for k in plan[i]]
+                results[i] = [impl.run_observed(*cases[k]) for k in plan[i]]
             ths = [threading.Thread(target=work, args=(i,)) for i in range(nthreads)]
             for t in ths:
                 t.start()
@@ -149,6 +144,7 @@ def wrapped(ctx, out):
         tup = tuple(rng.choice([None, 0, rng.randint(0, 9)]) for _ in range(5))
         c, e = _refined_sustain_tuple(tup), _refined_sustain_tuple.__wrapped__(tup)
         out.case(fw.h(["w", r, d.name, tup]), True, None, tags=["wrapped"])
+        out.traces += 1
         if a != b or c != e:
             out.violation("wrapped-" + fw.h([r, d.name, tup]), f"memoised result differs from the original function: {a}/{b} {c}/{e}",
                           {"op": "wrapped", "r": r, "d": d.name, "tup": tup}, observed=[a, c], promised=[b, e])
@@ -165,7 +161,7 @@ def replay(ctx, data):
         cases = [(c[0], c[1]) for c in data["cases"]]
         last = None
         for c in cases:
-            last = impl.run_chart(*c)
+            last = impl.run_observed(*c)
         ref = fresh([cases[-1]])[0]
         return last != ref, str(fw.first_diff(ref, last))
     return None, "re-run the slice"
